@@ -25,13 +25,16 @@ from vf import Infra
 from c13 import lanes, build_wallet, q, count, prime_at_most
 
 INVS = ["TypeOK", "FollowsPath", "HashChain", "Deterministic", "PubPrivCommute", "ListedAddressIsSigningKey",
-        "ExportReimportIdentity", "Refusals", "Bip39Layout"]
+        "ExportReimportIdentity", "SourceAndSpellingIrrelevant", "Refusals", "Bip39Layout"]
 BUGS = [("drop_hardened", "FollowsPath"), ("from_one", "FollowsPath"), ("swap_version", "ListedAddressIsSigningKey")]
 
 BASE = dict(WTYPES="4", MAXDEPTH=1, INDEXES="0", HARDS="TRUE", SUBS="1", KEYCNTS="2", BIP39S="0", SCRYPTS="0",
-            ATYPES=q("p2kh"), NETS="FALSE", PASSKINDS=q("ascii"), MNEMS=q("plain"))
+            ATYPES=q("p2kh"), NETS="FALSE", PASSKINDS=q("ascii"), MNEMS=q("plain"), PASSSRCS=q("file"), SEEDSYNS=q("none"), CFGSYNS=q("plain"))
 ALL_AT = q("p2kh", "segwit", "bech32", "tap", "pks")
-ALL_PK = q("ascii", "nonascii", "long", "prefixed")
+ALL_PK = q("ascii", "nonascii", "long")
+ALL_SRC = q("file", "stdin", "typed", "typedsave", "forceask")
+ALL_SEEDSYN = q("none", "empty", "plain", "inner", "padded", "crlf", "qstart", "qend", "qboth", "qinner", "eqhash", "nonascii")
+ALL_CFGSYN = q("plain", "quoted", "padded", "crlf", "upperkey", "flags")
 ALL_MN = q("plain", "messy", "pass", "pass_space", "pass_lead", "pass_trail", "pass_tab", "pass_nl", "pass_inner", "pass_nonascii", "badsum", "badword")
 
 
@@ -49,12 +52,20 @@ def families(quick):
               120 if quick else 900))
     f.append(("seeds", fam(WTYPES="3,4", KEYCNTS="3", BIP39S="0,12,15,18,21,24,1", SCRYPTS="0,4,10", ATYPES=q("bech32"), PASSKINDS=ALL_PK, MNEMS=ALL_MN),
               1000))
+    # how the password reaches the wallet: file, -stdin, typed (with and without saving it, -p), every kind of seed
+    f.append(("sources", fam(WTYPES="3,4", MAXDEPTH=2, INDEXES="0,1", HARDS="FALSE,TRUE", SUBS="2", BIP39S="0,12,1", ATYPES=q("p2kh", "bech32"),
+                             PASSKINDS=q("ascii", "nonascii"), MNEMS=q("plain", "messy", "pass_trail"), PASSSRCS=ALL_SRC, SEEDSYNS=q("none", "plain")),
+              100 if quick else 700))
+    # spelling of wallet.cfg: the seed= line (literal key material) and the lines / switches that feed the derivation
+    f.append(("syntax", fam(WTYPES="3,4", MAXDEPTH=1 if quick else 2, INDEXES="0,44", HARDS="FALSE,TRUE", SUBS="2", BIP39S="0,12", SCRYPTS="0,4", ATYPES=q("segwit", "tap"),
+                            NETS="FALSE" if quick else "FALSE,TRUE", SEEDSYNS=ALL_SEEDSYN, CFGSYNS=ALL_CFGSYN), 150 if quick else 1500))
     return f
 
 
 def wide():
     return fam(MAXDEPTH=6, INDEXES="0,1,2,44,2147483646,2147483647", HARDS="FALSE,TRUE", SUBS="1,2,3", KEYCNTS="1,2,3",
-               BIP39S="0,12,15,18,21,24,1", SCRYPTS="0,4", ATYPES=ALL_AT, NETS="FALSE,TRUE", PASSKINDS=ALL_PK, MNEMS=ALL_MN)
+               BIP39S="0,12,15,18,21,24,1", SCRYPTS="0,4", ATYPES=ALL_AT, NETS="FALSE,TRUE", PASSKINDS=ALL_PK, MNEMS=ALL_MN,
+               PASSSRCS=ALL_SRC, SEEDSYNS=ALL_SEEDSYN, CFGSYNS=ALL_CFGSYN)
 
 
 def estimate(d):
@@ -63,11 +74,14 @@ def estimate(d):
     nb = count(d["BIP39S"])
     seeds4 = (nb - (1 if "1" in d["BIP39S"].split(",") else 0)) * count(d["SCRYPTS"]) * count(d["PASSKINDS"]) + \
              (count(d["SCRYPTS"]) * count(d["MNEMS"]) if "1" in d["BIP39S"].split(",") else 0)
+    syn = count(d["PASSSRCS"]) * count(d["SEEDSYNS"]) * count(d["CFGSYNS"])
+    seeds4 *= syn
+    base *= 1
     n = 0
     if "4" in d["WTYPES"].split(","):
         n += base * count(d["SUBS"]) * paths * seeds4
     if "3" in d["WTYPES"].split(","):
-        n += base * count(d["SCRYPTS"]) * count(d["PASSKINDS"])
+        n += base * count(d["SCRYPTS"]) * count(d["PASSKINDS"]) * syn
     return n
 
 
@@ -155,8 +169,9 @@ def run(ctx):
     open(ent_none, "w").write("[]")
 
     # ---- 1. the design, exhaustively (all cores), and the broken variants refuted
-    mc = fam(WTYPES="3,4", MAXDEPTH=3 if quick else 4, INDEXES="0,1,2147483647", HARDS="FALSE,TRUE", SUBS="1,2,3", KEYCNTS="1,3",
-             BIP39S="0,12,1", SCRYPTS="0,4", ATYPES=q("p2kh", "tap"), NETS="FALSE,TRUE", MNEMS=q("plain", "badsum"))
+    mc = fam(WTYPES="3,4", MAXDEPTH=3 if quick else 4, INDEXES="0,1,2147483647", HARDS="FALSE,TRUE", SUBS="1,2,3", KEYCNTS="2" if quick else "1,3",
+             BIP39S="0,12,1", SCRYPTS="0,4", ATYPES=q("p2kh", "tap"), NETS="FALSE" if quick else "FALSE,TRUE", MNEMS=q("plain", "badsum", "pass"),
+             PASSSRCS=q("file", "stdin", "typedsave"), SEEDSYNS=q("none", "qboth"), CFGSYNS=q("plain", "flags") if not quick else q("plain"))
     r = ctx.tlc("HDPath", "HDPath_mc", defines=dict(mc, BUG="none", INVS=" ".join(INVS)), timeout=3000, files={"hd_enttable.json": ent_full})
     if r.invariant:
         raise Infra("design-level counterexample in HDPath (%s)\n%s" % (r.invariant, r.tail))
@@ -181,12 +196,12 @@ def run(ctx):
         jobs.append(export_job(n, d, t, ent_full if n == "seeds" else ent_none))
     nlanes, nwalk = (1, 150) if quick else (6, 500)
     for k in range(nlanes):
-        jobs.append(export_job("walk%d" % k, wide(), 0, ent_none, simulate="num=%d" % nwalk, depth=10, timeout=3000, tlcseed=ctx.seed * 100 + k))
+        jobs.append(export_job("walk%d" % k, wide(), 0, ent_none, simulate="num=%d" % nwalk, depth=11, timeout=3000, tlcseed=ctx.seed * 100 + k))
     exported = lanes(ctx, jobs, max(1, ncpu - 2))
     keys = ("lines", "listings", "refusals", "keys_compared", "extended_keys_compared", "public_derivations_compared", "reimports",
             "mnemonics_compared", "bip39_cases", "index_wrap_cases", "wallet_runs")
     total = {k: 0 for k in keys}
-    by = {"by_atype": {}, "by_depth": {}, "by_seed": {}}
+    by = {"by_atype": {}, "by_depth": {}, "by_seed": {}, "by_source_syntax_seedline": {}}
     fam_cov = {}
     first = None
     for name, path, n, distinct, generated, thin in exported:
